@@ -1,5 +1,6 @@
 import MontePyVerif.Lemmas.Pick
 import MontePyVerif.Lemmas.Text
+import MontePyVerif.Lemmas.ReadBack
 /-!
 # C05 — numbers set through the API are written without loss
 
@@ -10,10 +11,12 @@ rationals).  Spec: `Spec/Number.lean` (how MCNP reads a number, the tolerance). 
 A formatted number is a `Dec` (sign, digits, digits after the point, exponent) that is then laid out as text.
 The theorems below are about **all** nodes, paddings and values.  The arithmetic ones are proved on the `Dec` level;
 `Lemmas/Text.lean` proves that the Spec reads the first word of *every* layout (`renderPy`, `renderSci`: sign style, zero
-fill, point, divider or none, exponent padding) as exactly `Dec.value`.  The one step that is **not** proved is that the
-*model's* `fortranFloat` (the read-back check inside `_format_float`) reads a candidate's text as `Dec.value` too; it only
-matters when a candidate before the 17-digit fallback is accepted, and it is validated on every run (`render_ok` of
-the driver, unit U-read) — see design_notes/C05.md.
+fill, point, divider or none, exponent padding) as exactly `Dec.value`; `Lemmas/Readers.lean` proves that the Spec and the
+model's `fortranFloat` (Python's `float()` automaton, then the `re.sub` that inserts the `E`) read every well-formed
+`Spelling` — the `Real` rule of DESIGN.md §5.2 and every text the formatter lays out — as the same number;
+`Lemmas/ReadBack.lean` concludes that the read-back check inside `_format_float` reads every candidate as `Dec.value`.
+So `C05_float_full`, `C05_end_to_end`, `C05_end_to_end_new`, `C05_changed_float_signed` and `C05_default_node` carry no
+hypothesis about any reader.  The only named assumption is `ReprExact` (CPython's `repr`), used by `C05_default_node`.
 -/
 namespace MontePyVerif.C05
 open MontePyVerif.ValueFormat
@@ -302,5 +305,358 @@ theorem C05_int (sign : Char) (width : Nat) (k : Int) (tail : Text) (ht : tail =
 
 
 example : StartsSep " 2".toList := ⟨' ', ['2'], rfl, Or.inl rfl⟩
+
+/-! ## full strength: no hypothesis about the model's reader -/
+
+/-- **C05_float_full**: for every node (token spelling, padding, reverse-engineered formatter, history), every value
+    and whatever follows the number (nothing, or something that starts with a blank, a line break or `$`): MCNP (the
+    Spec) reads the first word of what `_format_float` writes as a value within the library tolerance of the value set.
+    The acceptance test of a candidate before the 17-digit fallback is the model's `fortran_float`; by
+    `fortran_reads_candidate` it returns the value the Spec reads. -/
+theorem C05_float_full (n : Node) (x : Num) (hx : 0 ≤ x.mag) (tail : Text) (ht : tail = [] ∨ StartsSep tail) :
+    ∃ v, parseChars (firstWord (formatFloat n x ++ tail)) = some v ∧ Spec.isClose v x.toRat := by
+  obtain ⟨sp, _, heq, hor⟩ := C05_float n x hx
+  refine ⟨(decOf x sp).value, ?_, ?_⟩
+  · rw [heq]; exact C05_candidate_text n.fmt x sp tail ht
+  · rcases hor with ⟨y, hy, hc⟩ | h
+    · rw [heq, fortran_reads_candidate] at hy
+      cases hy; exact hc
+    · exact h
+
+/-! ## the original token -/
+
+theorem ofRat_toRat (q : ℚ) : (Num.ofRat q).toRat = q := by
+  unfold Num.ofRat Num.toRat ratAbs
+  by_cases h : q < 0 <;> simp [h]
+
+theorem ofRat_mag_nonneg (q : ℚ) : 0 ≤ (Num.ofRat q).mag := by
+  unfold Num.ofRat ratAbs
+  by_cases h : q < 0 <;> simp [h] <;> linarith
+
+/-- **C05_token_reading**: `ValueNode.__init__` (`fortran_float`) reads every original token that is a well-formed
+    spelling — in particular every token of the `Real` rule of DESIGN.md §5.2 — as exactly the number MCNP reads -/
+theorem C05_token_reading (sp : Spelling) (wf : sp.WF) (pad : Option (List PadItem)) (np : Bool) :
+    parseChars sp.text = some sp.value ∧
+    mkNode (.str sp.text) .float pad np = some
+      { token := .str sp.text, ty := .float, padding := pad, neverPad := np, value := some (Num.ofRat sp.value),
+        ogValue := some (Num.ofRat sp.value), isNegId := false, isNegVal := false, isNeg := none,
+        fmt := floatDefaults, isReversed := false } := by
+  obtain ⟨h1, h2⟩ := readers_agree sp wf
+  refine ⟨h2, ?_⟩
+  unfold mkNode
+  simp only []
+  rw [h1, h2]
+  rfl
+
+theorem C05_token_reading_G (sp : Spelling) (g : sp.IsGReal) :
+    fortranFloat sp.text = parseChars sp.text ∧ parseChars sp.text = some sp.value := readers_agree sp g.wf
+
+/-- `1.5-3` is a spelling of the `Real` rule -/
+example : (⟨[], "1".toList, true, "5".toList, some ⟨[], ['-'], "3".toList⟩⟩ : Spelling).IsGReal := by
+  refine ⟨⟨Or.inl rfl, ?_, ?_, Or.inl (by simp), ?_, ?_⟩, ?_⟩
+  · intro c hc; simp at hc; subst hc; decide
+  · intro c hc; simp at hc; subst hc; decide
+  · intro h; cases h
+  · intro x hx; cases hx
+    refine ⟨Or.inl rfl, Or.inr (Or.inr rfl), ?_, by simp, by intro _; simp⟩
+    intro c hc; simp at hc; subst hc; decide
+  · intro x hx; cases hx; exact ⟨by decide, fun _ => rfl⟩
+
+
+/-! ## end to end: token spelling × padding × new value -/
+
+theorem reverse_fields (n : Node) :
+    (reverseEngineerFormatting n).value = n.value ∧ (reverseEngineerFormatting n).padding = n.padding ∧
+    (reverseEngineerFormatting n).ty = n.ty ∧ (reverseEngineerFormatting n).isNegId = n.isNegId ∧
+    (reverseEngineerFormatting n).isNegVal = n.isNegVal ∧ (reverseEngineerFormatting n).isNeg = n.isNeg := by
+  unfold reverseEngineerFormatting
+  split
+  · exact ⟨rfl, rfl, rfl, rfl, rfl, rfl⟩
+  · split <;> exact ⟨rfl, rfl, rfl, rfl, rfl, rfl⟩
+
+/-- paddings under which the number stays a word of its own: none, empty, or starting with a separator -/
+def PadSep (pad : Option (List PadItem)) : Prop :=
+  pad = none ∨ pad = some [] ∨ ∃ items, pad = some items ∧ PadOK items
+
+theorem blanks_sep (k : Nat) : List.replicate k ' ' = [] ∨ StartsSep (List.replicate k ' ') := by
+  by_cases hk : 1 ≤ k
+  · right; have := replicate_startsSep k hk []; simpa using this
+  · left; have : k = 0 := by omega
+    simp [this]
+
+/-- what `format` writes behind the number is empty or starts with a separator -/
+theorem padSep_tail (n : Node) (temp : Text) (h : PadSep n.padding) :
+    ∃ tail, ljust temp n.fmt.valueLength ++ (padStrings n temp.length).1 ++ (padStrings n temp.length).2 = temp ++ tail ∧
+      (tail = [] ∨ StartsSep tail) := by
+  rcases h with h | h | ⟨items, h, hok⟩
+  · refine ⟨List.replicate (n.fmt.valueLength - temp.length) ' ', ?_, blanks_sep _⟩
+    unfold padStrings ljust; simp [h]
+  · refine ⟨List.replicate (n.fmt.valueLength - temp.length) ' ', ?_, blanks_sep _⟩
+    unfold padStrings ljust; simp [h]
+  · obtain ⟨h1, h2⟩ := C05_separated n temp items h hok
+    exact ⟨_, h1, Or.inr h2⟩
+
+/-- `PaddingNode.format()` of an optional padding -/
+def padText (pad : Option (List PadItem)) : Text :=
+  match pad with
+  | some p => padFormat p
+  | none => []
+
+theorem padText_sep (pad : Option (List PadItem)) (h : PadSep pad) : padText pad = [] ∨ StartsSep (padText pad) := by
+  rcases h with h | h | ⟨items, h, hok⟩
+  · left; simp [h, padText]
+  · left; simp [h, padText, padFormat]
+  · right
+    subst h
+    cases hok with
+    | spaces k rest hk _ =>
+      simp only [padText, padFormat, List.map_cons, List.flatten_cons, PadItem.format]
+      exact replicate_startsSep k hk _
+    | newline rest => exact ⟨'\n', padFormat rest, by simp [padText, padFormat, PadItem.format], Or.inr (Or.inl rfl)⟩
+    | comment c rest => exact ⟨'$', c ++ padFormat rest, by simp [padText, padFormat, PadItem.format], Or.inr (Or.inr rfl)⟩
+
+theorem spelling_wordChars (sp : Spelling) (wf : sp.WF) : ∀ c ∈ sp.text, WordChar c := by
+  have hsign : ∀ (s : Text), IsSignText s → ∀ c ∈ s, WordChar c := by
+    intro s hs c hc
+    rcases hs with rfl | rfl | rfl
+    · simp at hc
+    · simp at hc; exact wordChar_of_mem c (Or.inl hc)
+    · simp at hc; exact wordChar_of_mem c (Or.inr (Or.inl hc))
+  intro c hc
+  unfold Spelling.text Spelling.mantText Spelling.exText at hc
+  rcases List.mem_append.mp hc with hc | hc
+  · rcases List.mem_append.mp hc with hc | hc
+    · rcases List.mem_append.mp hc with hc | hc
+      · exact hsign _ wf.sign c hc
+      · exact wordChar_digit c (wf.ip c hc)
+    · cases hd : sp.dot with
+      | false => simp [hd] at hc
+      | true =>
+        simp only [hd, if_true, List.mem_cons] at hc
+        rcases hc with rfl | hc
+        · exact wordChar_of_mem _ (Or.inr (Or.inr (Or.inl rfl)))
+        · exact wordChar_digit c (wf.fp c hc)
+  · cases hx : sp.ex with
+    | none => simp [hx] at hc
+    | some x =>
+      have wx := wf.ex x hx
+      simp only [hx, ExpSp.text] at hc
+      rcases List.mem_append.mp hc with hc | hc
+      · rcases List.mem_append.mp hc with hc | hc
+        · rcases wx.letter with h | h | h <;> rw [h] at hc
+          · simp at hc
+          · simp at hc; exact wordChar_of_mem c (Or.inr (Or.inr (Or.inr (Or.inl hc))))
+          · simp at hc; exact wordChar_of_mem c (Or.inr (Or.inr (Or.inr (Or.inr hc))))
+        · exact hsign _ wx.sign c hc
+      · exact wordChar_digit c (wx.digits c hc)
+
+theorem spelling_ne_nil (sp : Spelling) (wf : sp.WF) : sp.text ≠ [] := by
+  unfold Spelling.text Spelling.mantText
+  have := mant_ne_nil sp wf
+  intro h
+  simp only [List.append_eq_nil_iff] at h
+  exact this (by simp [h.1.1.2, h.1.2])
+
+theorem isClose_symm (a b : ℚ) (h : Spec.isClose a b) : Spec.isClose b a := by
+  unfold Spec.isClose at h ⊢
+  rw [absR_eq, absR_eq, absR_eq] at h ⊢
+  rw [abs_sub_comm b a, max_comm |a| |b|]
+  exact h
+
+/-- **C05_changed_float**: for every float node that is not negatable — whatever its token (spelled, jump, none),
+    formatter and history — whose value `x` differs from the original one and whose padding keeps words apart, MCNP
+    reads the first word of what `format()` writes as a value within the tolerance of `x` -/
+theorem C05_changed_float (n : Node) (hty : n.ty = .float) (hneg : isNegative n = none) (x : Num)
+    (hv : n.value = some x) (hx : 0 ≤ x.mag) (hch : valueChanged n = true) (hpad : PadSep n.padding) :
+    ∃ v, parseChars (firstWord (format n).2) = some v ∧ Spec.isClose v x.toRat := by
+  obtain ⟨rv, rp, rty, rid, rval, rneg⟩ := reverse_fields n
+  set n' := reverseEngineerFormatting n with hn'
+  have hneg' : isNegative n' = none := by
+    unfold isNegative at hneg ⊢; rw [rid, rval, rneg]; exact hneg
+  have hpv : printValue n' = some x := by
+    unfold printValue; rw [hneg', rv, hv]
+  have hfmt := C05_format_changed n hch x hpv (by rw [hv]; rfl)
+  rw [hfmt]
+  obtain ⟨tail, htail, hsep⟩ := padSep_tail n' (formatTemp n' x) (by rw [rp]; exact hpad)
+  rw [htail]
+  unfold formatTemp
+  have hty' : ¬ (n'.ty = Ty.int) := by rw [rty, hty]; intro h; cases h
+  simp only [hty', if_false]
+  split
+  · rename_i hint
+    refine ⟨(x.round : ℚ), C05_int _ _ _ tail hsep, ?_⟩
+    exact C05_float_as_int n' x (by rw [rv, hv]) hint
+  · exact C05_float_full n' x hx tail hsep
+
+/-- **C05_end_to_end**: for every original token that is a well-formed spelling (the `Real` rule of DESIGN.md §5.2 and
+    more: leading zeros, explicit `+`, exponent with or without letter), every padding that keeps words apart and every
+    new value `x` set through `value = x`: MCNP (the Spec) reads the first word of what `format()` writes as a value
+    within the library tolerance of `x` — whether the token is kept verbatim (value unchanged within the tolerance)
+    or a new number is written in the reverse-engineered style with as many digits as needed -/
+theorem C05_end_to_end (sp : Spelling) (wf : sp.WF) (pad : Option (List PadItem)) (hpad : PadSep pad) (np : Bool)
+    (x : Num) (hx : 0 ≤ x.mag) :
+    ∃ n0, mkNode (.str sp.text) .float pad np = some n0 ∧
+      ∃ v, parseChars (firstWord (format (setValue n0 (some x))).2) = some v ∧ Spec.isClose v x.toRat := by
+  obtain ⟨hread, hmk⟩ := C05_token_reading sp wf pad np
+  refine ⟨_, hmk, ?_⟩
+  set n0 : Node :=
+    { token := .str sp.text, ty := .float, padding := pad, neverPad := np,
+      value := some (Num.ofRat sp.value), ogValue := some (Num.ofRat sp.value), isNegId := false, isNegVal := false,
+      isNeg := none, fmt := floatDefaults, isReversed := false } with hn0
+  have hset : setValue n0 (some x) = { n0 with value := some x } := by
+    unfold setValue isNegative; simp [hn0]
+  rw [hset]
+  set n : Node := { n0 with value := some x } with hn
+  by_cases hch : valueChanged n = true
+  · exact C05_changed_float n rfl rfl x rfl hx hch hpad
+  · have hch' : valueChanged n = false := by simpa using hch
+    obtain ⟨ht, _⟩ := C05_unchanged n hch'
+    have ht' : (format n).2 = sp.text ++ padText pad := ht
+    rw [ht']
+    refine ⟨sp.value, ?_, ?_⟩
+    · have hfw : firstWord (sp.text ++ padText pad) = sp.text := by
+        rcases firstWord_word sp.text _ (spelling_wordChars sp wf) (padText_sep pad hpad) with h | ⟨h, _⟩
+        · exact h
+        · exact absurd h (spelling_ne_nil sp wf)
+      rw [hfw]; exact hread
+    · have hcl : ValueFormat.isClose x.toRat (Num.ofRat sp.value).toRat = true := by
+        unfold valueChanged printValue isNegative at hch'
+        simpa [hn, hn0] using hch'
+      rw [ofRat_toRat] at hcl
+      exact isClose_symm _ _ (spec_of_model_isClose _ _ hcl)
+
+/-- **C05_end_to_end_new**: an object created from scratch (a node without token) whose value is set to `x`: MCNP
+    reads the first word of what `format()` writes as a value within the tolerance of `x` -/
+theorem C05_end_to_end_new (pad : Option (List PadItem)) (hpad : PadSep pad) (np : Bool) (x : Num) (hx : 0 ≤ x.mag) :
+    ∃ n0, mkNode .none .float pad np = some n0 ∧
+      ∃ v, parseChars (firstWord (format (setValue n0 (some x))).2) = some v ∧ Spec.isClose v x.toRat := by
+  refine ⟨_, rfl, ?_⟩
+  set n0 : Node :=
+    { token := .none, ty := .float, padding := pad, neverPad := np, value := none, ogValue := none,
+      isNegId := false, isNegVal := false, isNeg := none, fmt := floatDefaults, isReversed := false } with hn0
+  have hpad' : PadSep (setValue n0 (some x)).padding := by
+    unfold setValue isNegative
+    simp only [hn0]
+    cases np
+    · rcases hpad with h | h | ⟨items, h, hok⟩
+      · subst h; exact Or.inr (Or.inr ⟨_, rfl, PadOK.spaces 1 [] (by decide) (by intro j r h; cases h)⟩)
+      · subst h; exact Or.inr (Or.inl rfl)
+      · subst h; exact Or.inr (Or.inr ⟨items, rfl, hok⟩)
+    · simpa using hpad
+  have hval : (setValue n0 (some x)).value = some x := by unfold setValue isNegative; simp [hn0]
+  have hty : (setValue n0 (some x)).ty = .float := by unfold setValue; simp [hn0]
+  have hneg : isNegative (setValue n0 (some x)) = none := by unfold setValue isNegative; simp [hn0]
+  have hch : valueChanged (setValue n0 (some x)) = true := by
+    unfold valueChanged; rw [hval]
+    have : (setValue n0 (some x)).ogValue = none := by unfold setValue; simp [hn0]
+    rw [this]
+  exact C05_changed_float _ hty hneg x hval hx hch hpad'
+
+
+/-! ## nodes with a sign flag (cell densities, negatable identifiers' float cousins) -/
+
+theorem isClose_neg (a b : ℚ) (h : Spec.isClose a b) : Spec.isClose (-a) (-b) := by
+  unfold Spec.isClose at h ⊢
+  rw [absR_eq, absR_eq, absR_eq] at h ⊢
+  have e : -a - -b = -(a - b) := by ring
+  rw [e, abs_neg, abs_neg, abs_neg]
+  exact h
+
+theorem negate_mag (v : Num) : v.negate.mag = v.mag := by
+  unfold Num.negate; split <;> rfl
+
+/-- rounding and closeness only depend on the magnitude -/
+theorem round_close_of_mag (v y : Num) (h : y.mag = v.mag) (hc : Spec.isClose (v.round : ℚ) v.toRat) :
+    Spec.isClose (y.round : ℚ) y.toRat := by
+  unfold Num.round Num.toRat at hc ⊢
+  rw [h]
+  cases hv : v.neg <;> cases hy : y.neg <;> simp only [hv, Bool.false_eq_true, if_false, if_true] at hc ⊢
+  · exact hc
+  · have := isClose_neg _ _ hc
+    simpa using this
+  · have := isClose_neg _ _ hc
+    simpa using this
+  · exact hc
+
+/-- **C05_changed_float_signed**: the same for *every* float node, negatable or not: what is written is the print
+    value `y` (the magnitude `value` with the sign `is_negative`), and MCNP reads the first word of `format()` as a
+    value within the tolerance of `y` -/
+theorem C05_changed_float_signed (n : Node) (hty : n.ty = .float) (v : Num) (hv : n.value = some v) (hx : 0 ≤ v.mag)
+    (hch : valueChanged n = true) (hpad : PadSep n.padding) :
+    ∃ y, printValue n = some y ∧ y.mag = v.mag ∧
+      ∃ w, parseChars (firstWord (format n).2) = some w ∧ Spec.isClose w y.toRat := by
+  obtain ⟨rv, rp, rty, rid, rval, rneg⟩ := reverse_fields n
+  set n' := reverseEngineerFormatting n with hn'
+  have hpv' : printValue n' = printValue n := by
+    unfold printValue isNegative; rw [rid, rval, rneg, rv]
+  obtain ⟨y, hy, hmag⟩ : ∃ y, printValue n = some y ∧ y.mag = v.mag := by
+    unfold printValue
+    split
+    · exact ⟨v.negate, by simp [hv], negate_mag v⟩
+    · exact ⟨v, hv, rfl⟩
+  refine ⟨y, hy, hmag, ?_⟩
+  have hfmt := C05_format_changed n hch y (by rw [hpv']; exact hy) (by rw [hv]; rfl)
+  rw [hfmt]
+  obtain ⟨tail, htail, hsep⟩ := padSep_tail n' (formatTemp n' y) (by rw [rp]; exact hpad)
+  rw [htail]
+  unfold formatTemp
+  have hty' : ¬ (n'.ty = Ty.int) := by rw [rty, hty]; intro h; cases h
+  simp only [hty', if_false]
+  split
+  · rename_i hint
+    refine ⟨(y.round : ℚ), C05_int _ _ _ tail hsep, ?_⟩
+    exact round_close_of_mag v y hmag (C05_float_as_int n' v (by rw [rv, hv]) hint)
+  · exact C05_float_full n' y (by rw [hmag]; exact hx) tail hsep
+
+/-! ## a node made at write time from a value (`_generate_default_node(float, v)`: token `str(v)`) -/
+
+/-- **ReprExact** (named assumption; CPython's `repr` guarantee, in the trusted base, not modelled): `t` is what
+    `str(v)` returns for a finite float `v` — a decimal literal (digits, optional point, optional `e±dd`: a well-formed
+    spelling) that denotes exactly `v` in the model's number abstraction (in CPython: the shortest decimal whose nearest
+    double is `v`, DESIGN.md §1.3) -/
+def ReprExact (t : Text) (v : ℚ) : Prop := ∃ sp : Spelling, sp.WF ∧ t = sp.text ∧ sp.value = v
+
+theorem isClose_self (a : ℚ) : ValueFormat.isClose a a = true := by
+  unfold ValueFormat.isClose; simp
+
+/-- **C05_default_node**: under `ReprExact t v`, the node `ValueNode(str(v), float, padding)` that
+    `_generate_default_node` makes at write time holds exactly `v`, counts as unchanged, is written verbatim
+    (`str(v)` followed by its padding), and MCNP reads the first word of it as exactly `v` -/
+theorem C05_default_node (t : Text) (v : ℚ) (h : ReprExact t v) (pad : Option (List PadItem)) (hpad : PadSep pad)
+    (np : Bool) :
+    ∃ n, mkNode (.str t) .float pad np = some n ∧ n.value = some (Num.ofRat v) ∧ valueChanged n = false ∧
+      (format n).2 = t ++ padText pad ∧ parseChars (firstWord (format n).2) = some v := by
+  obtain ⟨sp, wf, rfl, rfl⟩ := h
+  obtain ⟨hread, hmk⟩ := C05_token_reading sp wf pad np
+  refine ⟨_, hmk, rfl, ?_⟩
+  set n : Node :=
+    { token := .str sp.text, ty := .float, padding := pad, neverPad := np,
+      value := some (Num.ofRat sp.value), ogValue := some (Num.ofRat sp.value), isNegId := false, isNegVal := false,
+      isNeg := none, fmt := floatDefaults, isReversed := false } with hn
+  have hch : valueChanged n = false := by
+    unfold valueChanged printValue isNegative
+    simp [hn, isClose_self]
+  obtain ⟨ht, _⟩ := C05_unchanged n hch
+  have ht' : (format n).2 = sp.text ++ padText pad := ht
+  refine ⟨hch, ht', ?_⟩
+  rw [ht']
+  have hfw : firstWord (sp.text ++ padText pad) = sp.text := by
+    rcases firstWord_word sp.text _ (spelling_wordChars sp wf) (padText_sep pad hpad) with h | ⟨h, _⟩
+    · exact h
+    · exact absurd h (spelling_ne_nil sp wf)
+  rw [hfw]; exact hread
+
+/-- `str(0.1) = "0.1"` denotes 1/10 -/
+example : ReprExact "0.1".toList (1 / 10) := by
+  refine ⟨⟨[], ['0'], true, ['1'], none⟩, ⟨Or.inl rfl, ?_, ?_, Or.inl (by simp), ?_, ?_⟩, rfl, ?_⟩
+  · intro c hc; simp at hc; subst hc; decide
+  · intro c hc; simp at hc; subst hc; decide
+  · intro h; cases h
+  · intro x hx; cases hx
+  · simp [Spelling.value, Spelling.mant, Spelling.expValue, sgnQ, negOf, Nat.ofDigitChars]
+
+/-- the default padding of `_generate_default_node` is one blank -/
+example : PadSep (some [PadItem.spaces 1]) :=
+  Or.inr (Or.inr ⟨_, rfl, PadOK.spaces 1 [] (by decide) (by intro j r h; cases h)⟩)
 
 end MontePyVerif.C05
